@@ -152,6 +152,7 @@ structure Acc where
   kfm : List (Nat × String) := []        -- observation index ↦ class of the known finding it is attributed to
   nt : Nat := 0
   snap : Option S := none
+  snapStart : Option S := none
 
 def doQuery (a : Acc) (q : Json) : R Acc := do
   let s := a.s
@@ -511,6 +512,15 @@ def doOpCore (a : Acc) (idx : Nat) (op : Json) : R Acc := do
     if !okRc then return a
     -- a completed backup run captures the state at its start
     return { a with snap := some s }
+  | "backupStart" =>
+    -- a run that is held open while the following operations commit (C20, forced schedule)
+    if !okRc then return a
+    return { a with snapStart := some s }
+  | "backupEnd" =>
+    if !okRc then return { a with snapStart := none }
+    match a.snapStart with
+    | some s0 => return { a with snap := some s0, snapStart := none }
+    | none => return a
   | "q" =>
     let _ := idx
     if getStrD op "on" "" == "restore" then
